@@ -364,8 +364,6 @@ def negative_controls(trace):
                 h[-1]["obs"][ev["t"]]["l"][o - 1].append(r)         # the rule is still listed after its context closed
                 out.append(("local-rule-survives-context-exit", h))
                 break
-        if len(out) > 12:
-            break
     return out
 
 
@@ -426,16 +424,16 @@ def generate(tier, seed, wd):
         g = _tlc("DecompCtxGen", lib.cfg(next_="GenNext", constants=c, invariants=INVS, constraints=["Canon"]), wd / "gen", timeout=3000)
         runs.append(g)
         hists += [j["hist"] for j in g.json_lines]
+    hists.sort(key=lambda h: (len(h), json.dumps(h, sort_keys=True)))     # TLC's output order depends on its worker threads
     exhaustive_n = len(hists)
     s = _tlc("DecompCtxGen", lib.cfg(next_="GenNext", constants=sim, invariants=INVS), wd / "sim", simulate=f"num={nsim}",
              depth=sim["MaxEvents"] + 3, seed=seed + 1, workers=4, timeout=3000)
     runs.append(s)
     seen = set()
-    for j in s.json_lines:
-        k = json.dumps(j["hist"])
+    for k in sorted(json.dumps(j["hist"], sort_keys=True) for j in s.json_lines):
         if k not in seen:
             seen.add(k)
-            hists.append(j["hist"])
+            hists.append(json.loads(k))
     model_bad = None
     for r in runs:
         if r.invariant_violated:
@@ -484,8 +482,14 @@ def run(tier, seed):
     # negative controls
     negs = []
     cand = [i for i, f in enumerate(feats) if f["local_rule_with_other_ctx_open"]]
-    for i in rng.sample(cand, min(len(cand), 6)):
+    per_clause = {}
+    for i in rng.sample(cand, min(len(cand), 60)):
+        if per_clause and len(per_clause) == 4 and min(per_clause.values()) >= 3:
+            break
         for clause, h in negative_controls(traces[i]):
+            if per_clause.get(clause, 0) >= 6:
+                continue
+            per_clause[clause] = per_clause.get(clause, 0) + 1
             negs.append((len(traces), clause, i))
             traces.append({"mode": "neg", "hist": h})
             meta.append(("neg", i))
